@@ -11,6 +11,7 @@ controller links; any tick and endpoint schedule.  Out of the model: chunking (a
 several buffer slots), durable queue, controller restart.
 -/
 import GoaktVerif.Lemmas.C42.World
+import GoaktVerif.Lemmas.C42c.Demand
 
 namespace GoaktVerif.C43
 open GoaktVerif.Model.C42 GoaktVerif.Spec.C42 GoaktVerif.C42
@@ -52,5 +53,27 @@ example : (Mon.run {} [.cstate 2 0 2 3]).okWindow = false := by decide
 /-- TEST (evaluated): a run that fills the window (window 2: two messages stored before any delivery) stays fine -/
 example : (monitorOf 2 1 false [.deliverCP 0, .deliverPC 0, .deliverCP 0, .userP, .userP, .userP, .userP,
     .deliverPC 1, .deliverPC 0]).maxReq = 2 := by decide
+
+/-! ### the demand clause on the chunk-aware model (Model/C42c), proved since /repo 78360fc -/
+
+/-- For every window, chunk size, sequence of frame lengths and script: at every step, every SequencedMessage
+    the producer controller sends — whole message or chunk — has a sequence ≤ the highest requestUpToSeq the
+    consumer controller has sent so far (`demandOK` runs the script and checks exactly that). -/
+def C43c_full : Prop :=
+  ∀ (window interval : Nat) (dc : Bool) (maxChunk : Nat) (lens : List Nat) (ss : List Step),
+    GoaktVerif.C43c.demandOK (GoaktVerif.Model.C42c.World.init window interval dc maxChunk lens) 0 ss = true
+
+theorem C43c_holds : C43c_full := by
+  intro window interval dc maxChunk lens ss
+  exact GoaktVerif.C43c.demandOK_of_inv (GoaktVerif.C43c.init_inv window interval dc maxChunk lens) ss
+
+/-- TEST (evaluated): the former C43-F1 witness on the chunk-aware model — a 4-chunk message is stored with
+    currentSeq 6 > demandUpTo 4, the consumer re-registers, and the StoredAck now emits only chunks 3 and 4 -/
+example :
+    let w := (((GoaktVerif.Model.C42c.World.init 4 1 false 32 [48, 100]).step (.deliverCP 0)).1.step (.deliverPC 0)).1
+    let run := fun (w : GoaktVerif.Model.C42c.World) (ss : List Step) => ss.foldl (fun w s => (w.step s).1) w
+    let w9 := run w [.deliverCP 0, .userP, .userP, .userP, .tickC, .tickC, .deliverCP 0]
+    w9.p.currentSeq = 6 ∧ w9.p.demandUpTo = 4 ∧
+    GoaktVerif.C43c.sentSeqs (w9.step .userP).2.pouts = [3, 4] := by decide
 
 end GoaktVerif.C43
